@@ -215,8 +215,17 @@ func (ex *Exec) checkPost(st *State, results []Value) {
 			c.binds[n] = tt
 		}
 	}
-	// captured variables by name (final contents)
-	if len(fn.FreeVars) > 0 {
+	// locals and captured variables are visible by name with their final values
+	if ex.lastFrame != nil && ex.lastFrame.fn == fn && ex.lastRet != nil {
+		if len(st.frames) == 0 {
+			// locals living in frame cells must stay reachable while the postconditions are evaluated
+			st.frames = append(st.frames, ex.lastFrame)
+			defer func() { st.frames = st.frames[:0] }()
+		}
+		c.frame = ex.lastFrame
+		c.at = ex.lastRet.Block()
+		c.atIdx = instrIndex(ex.lastRet)
+	} else if len(fn.FreeVars) > 0 {
 		c.frame = &Frame{fn: fn, env: map[ssa.Value]Value{}, freeVar: ex.topFreeVars}
 	}
 	for i := range ex.con.Ensures {
